@@ -1,6 +1,5 @@
 from __future__ import annotations
 
-import ast
 import functools
 import itertools
 import re
@@ -382,7 +381,8 @@ class DefaultOperatorResolver(OperatorResolver):
                 not len(power_term.factors) == 1
                 or not power_term.factors[0].token
                 or power_term.factors[0].token.kind is not Token.Kind.VALUE
-                or not isinstance(ast.literal_eval(power_term.factors[0].expr), int)
+                or not re.fullmatch(r"[0-9]+", power_term.factors[0].expr)
+                or int(power_term.factors[0].expr) < 1
             ):
                 raise exc_for_token(
                     power_term.factors[0].token or Token(),
